@@ -227,7 +227,7 @@ func (f *Frame) topEval(st, old *State, args []Val, results []Val) *Eval {
 func (vc *FuncVC) smtFor(o *Obligation, wantModel bool, modelSyms []string, extra ...string) string {
 	var b strings.Builder
 	b.WriteString("(set-option :produce-models true)\n(set-logic ALL)\n")
-	for _, l := range vc.Lines[:o.PreludeLen] {
+	for _, l := range sliceLines(vc.Lines[:o.PreludeLen], o.Cond.S) {
 		if o.Kind == "cover" && strings.Contains(l, "(forall ") {
 			continue // covers are checked without the quantified facts (a weaker, but decidable, consistency check)
 		}
@@ -276,7 +276,7 @@ func (vc *FuncVC) smallModelHints() []string {
 func (vc *FuncVC) smtForRelaxed(o *Obligation, modelSyms []string, extra []string) string {
 	var b strings.Builder
 	b.WriteString("(set-option :produce-models true)\n(set-logic ALL)\n")
-	for _, l := range vc.Lines[:o.PreludeLen] {
+	for _, l := range sliceLines(vc.Lines[:o.PreludeLen], o.Cond.S) {
 		if strings.Contains(l, "(forall ") {
 			continue
 		}
